@@ -632,7 +632,8 @@ pub fn evaluate(ctx: Context, expr: &Expr) -> Result<Val> {
 			let base = evaluate(ctx.clone(), a)?;
 			match base {
 				Val::Obj(base_obj) => Val::Obj(evaluate_object(Some(base_obj), ctx, b)?),
-				_ => bail!("ObjExtend lhs should be an object value"),
+				// `e { ... }` is `e + { ... }`, which is also defined for strings on the left
+				base => operator::evaluate_add_op(&base, &Val::Obj(evaluate_object(None, ctx, b)?))?,
 			}
 		}
 		Apply(value, args, tailstrict) => ensure_sufficient_stack(|| {
